@@ -783,7 +783,7 @@ class CParser(RecursiveDescentParser):
         assert not decl_spec.storage_class
         type_modifiers, name = self.parse_type_modifiers(abstract=True)
         if name:
-            self.error("Unexpected name for type declaration", name)
+            self.error("Unexpected name for type declaration", name.loc)
         location = self.current_location
         return self.semantics.on_type(decl_spec.typ, type_modifiers, location)
 
